@@ -190,3 +190,42 @@ def np_block_at(a, chunks, idx):
     sel = np.atleast_1d(sel)
     parts = [a[offs[k]:offs[k + 1]] for k in sel]
     return np.concatenate(parts) if parts else a[:0]
+
+
+# ---- weighted reduction kernels (da.reduction(..., weights=w))
+
+
+def w_chunk(x, weights=None, axis=None, keepdims=False):
+    return np.sum(x * weights, axis=axis, keepdims=keepdims)
+
+
+def w_agg(x, axis=None, keepdims=False):
+    return np.sum(x, axis=axis, keepdims=keepdims)
+
+
+def mbk(b, k=1.0):
+    return b * k
+
+
+# ---- references that only a clean interpreter can give (random arrays):
+# filled by the check from a fresh subprocess before exploration starts
+REFS = {}
+
+
+def clean_ref(opname, shape):
+    return np.array(REFS[(opname, tuple(shape))])
+
+
+RANDOM_SRC = {
+    "rnd_seed1": "da.random.default_rng(1).random({shape}, chunks=2)",
+    "rnd_seed2": "da.random.default_rng(2).random({shape}, chunks=2)",
+    "rnd_ss_a": "da.random.default_rng(np.random.SeedSequence(5).spawn(2)[0]).random({shape}, chunks=2)",
+    "rnd_ss_b": "da.random.default_rng(np.random.SeedSequence(5).spawn(2)[1]).random({shape}, chunks=2)",
+    "rnd_rs1": "da.random.RandomState(3).normal(size={shape}, chunks=3)",
+    "rnd_rs2": "da.random.RandomState(4).normal(size={shape}, chunks=3)",
+    "rnd_poisson": "da.random.default_rng(7).poisson(3.0, size={shape}, chunks=2)",
+    "rnd_int": "da.random.default_rng(7).integers(0, 10, size={shape}, chunks=2)",
+    "rnd_normal_c3": "da.random.default_rng(1).normal(size={shape}, chunks=3)",
+    "rnd_uniform": "da.random.RandomState(3).uniform(size={shape}, chunks=2)",
+}
+RANDOM_SHAPES = [(6,), (8,), (3, 4), (4, 4)]
